@@ -187,6 +187,14 @@ class DropletBase:
         # create a staticmethod for merging droplet data
         cls._merge_data = staticmethod(cls._make_merge_data())
 
+    def __getstate__(self):
+        return {"data": self.data}
+
+    def __setstate__(self, state):
+        # a numpy record restored by pickle silently ignores item assignments, so droplets
+        # sent to worker processes could not be modified; a copy is writable again
+        self.data = state["data"].copy()
+
     def __eq__(self, other):
         if not isinstance(other, self.__class__):
             return NotImplemented
